@@ -108,7 +108,7 @@ func genI32() *rapid.Generator[int32] {
 }
 
 func genExemplars(t *rapid.T) []Exemplar {
-	n := rapid.SampledFrom([]int{0, 0, 0, 1, 2}).Draw(t, "nexemplars")
+	n := genSize(t, "nexemplars", []int{0, 0, 0, 1, 2}, 60, 3, 40)
 	var out []Exemplar
 	for i := 0; i < n; i++ {
 		e := Exemplar{
@@ -143,7 +143,7 @@ func genPoint(t *rapid.T, agg string, serial int) Point {
 		p.Exemplars = genExemplars(t)
 	case "hist":
 		p.Count = genU64().Draw(t, "count")
-		nb := rapid.SampledFrom([]int{0, 0, 1, 2, 3, 5}).Draw(t, "nbounds")
+		nb := genSize(t, "nbounds", []int{0, 0, 1, 2, 3, 5}, 50, 6, 400)
 		for i := 0; i < nb; i++ {
 			p.Bounds = append(p.Bounds, vk.GenF64().Draw(t, "bound"))
 		}
@@ -166,10 +166,16 @@ func genPoint(t *rapid.T, agg string, serial int) Point {
 		p.NegOffset = genI32().Draw(t, "negoff")
 		p.Pos = rapid.SliceOfN(genU64(), 0, 4).Draw(t, "pos")
 		p.Neg = rapid.SliceOfN(genU64(), 0, 4).Draw(t, "neg")
+		if k := genSize(t, "npos", []int{0}, 50, 5, 400); k > 0 {
+			p.Pos = rapid.SliceOfN(genU64(), k, k).Draw(t, "widepos")
+		}
+		if k := genSize(t, "nneg", []int{0}, 50, 5, 400); k > 0 {
+			p.Neg = rapid.SliceOfN(genU64(), k, k).Draw(t, "wideneg")
+		}
 		p.Exemplars = genExemplars(t)
 	case "summary":
 		p.Count = genU64().Draw(t, "count")
-		nq := rapid.IntRange(0, 3).Draw(t, "nquantiles")
+		nq := genSize(t, "nquantiles", []int{0, 1, 2, 3}, 50, 4, 100)
 		for i := 0; i < nq; i++ {
 			p.Quantiles = append(p.Quantiles, Quantile{Q: vk.GenF64().Draw(t, "q"), V: vk.GenF64().Draw(t, "qv")})
 		}
@@ -213,7 +219,7 @@ func genMetricCase(t *rapid.T) MetricCase {
 	serial := 0
 	for si, sc := range scopes {
 		ms := MScope{Scope: sc}
-		nm := rapid.SampledFrom([]int{0, 1, 1, 2, 3, 4}).Draw(t, "nmetrics")
+		nm := genSize(t, "nmetrics", []int{0, 1, 1, 2, 3, 4}, 100, 5, 60)
 		for i := 0; i < nm; i++ {
 			ms.Metrics = append(ms.Metrics, genMetric(t, serial, ""))
 			serial++
@@ -256,7 +262,7 @@ func genMetric(t *rapid.T, serial int, invalid string) Metric {
 	if m.Agg == "nil" {
 		return m
 	}
-	np := rapid.SampledFrom([]int{0, 1, 1, 2, 3}).Draw(t, "npoints")
+	np := genSize(t, "npoints", []int{0, 1, 1, 2, 3}, 80, 4, 100)
 	pointAgg := m.Agg
 	if pointAgg == "unknown" {
 		pointAgg = "gauge"
@@ -894,6 +900,8 @@ func runMetrics(c MetricCase) ([]vk.Violation, vk.Info) {
 	aggs := map[string]bool{}
 	nMetrics := 0
 	var boundary, emptyScope, emptyScopeMetrics, noPoints, minUnset, minSet, exemplars, nanInf, bigInt bool
+	var emptyKeyPoint, emptyKeyExemplar bool
+	var maxMetrics, maxPoints, maxBuckets, maxExemplars int
 	for _, s := range c.Scopes {
 		scopes[fmt.Sprint(s.Scope)] = true
 		if s.Scope.empty() {
@@ -902,8 +910,10 @@ func runMetrics(c MetricCase) ([]vk.Violation, vk.Info) {
 		if len(s.Metrics) == 0 {
 			emptyScopeMetrics = true
 		}
+		maxMetrics = max(maxMetrics, len(s.Metrics))
 		for _, m := range s.Metrics {
 			nMetrics++
+			maxPoints = max(maxPoints, len(m.Points))
 			aggs[fmt.Sprintf("%s/%v", m.Agg, m.Float)] = true
 			if len(m.Points) == 0 {
 				noPoints = true
@@ -923,6 +933,12 @@ func runMetrics(c MetricCase) ([]vk.Violation, vk.Info) {
 				if len(p.Exemplars) > 0 {
 					exemplars = true
 				}
+				emptyKeyPoint = emptyKeyPoint || hasEmptyKey(p.Attrs)
+				for _, e := range p.Exemplars {
+					emptyKeyExemplar = emptyKeyExemplar || hasEmptyKey(e.Attrs)
+				}
+				maxExemplars = max(maxExemplars, len(p.Exemplars))
+				maxBuckets = max(maxBuckets, len(p.BucketCounts), len(p.Pos), len(p.Neg))
 				if m.Float || m.Agg == "summary" {
 					if f := float64(p.F); math.IsNaN(f) || math.IsInf(f, 0) {
 						nanInf, boundary = true, true
@@ -950,6 +966,15 @@ func runMetrics(c MetricCase) ([]vk.Violation, vk.Info) {
 	info.ClassIf(minUnset, "min_or_max_unset")
 	info.ClassIf(minSet, "min_or_max_set")
 	info.ClassIf(exemplars, "exemplars")
+	info.ClassIf(emptyKeyPoint, "empty_attr_key:data_point")
+	info.ClassIf(emptyKeyExemplar, "empty_attr_key:exemplar")
+	info.ClassIf(hasEmptyKey(c.Res.Attrs), "empty_attr_key:resource")
+	info.ClassIf(maxMetrics > 4, "metrics_per_scope>4")
+	info.ClassIf(maxPoints > 3, "points_per_metric>3")
+	info.ClassIf(maxPoints > 64, "points_per_metric>64")
+	info.ClassIf(maxBuckets > 6, "buckets>6")
+	info.ClassIf(maxBuckets > 160, "buckets>160")
+	info.ClassIf(maxExemplars > 2, "exemplars_per_point>2")
 	info.ClassIf(nanInf, "nan_or_inf_value")
 	info.ClassIf(bigInt, "int_beyond_2^53")
 	info.ClassIf(c.Gzip, "gzip")
@@ -966,7 +991,7 @@ type metricExporter interface {
 func TestMetrics(t *testing.T) {
 	vk.Run(t, vk.Spec[MetricCase]{
 		Property: "C13", Check: "otlp_metrics_grpc_http",
-		Rule: "one ResourceMetrics with 0..4 scopes (empty, siblings differing in one component, without metrics) x 0..4 uniquely named metrics over {Gauge, Sum, Histogram, ExponentialHistogram} x {int64, float64} and Summary, both temporalities, monotonic flag, 0..3 points with exemplars, Min/Max set or unset, boundary integers, NaN/Inf, unset/pre-epoch/2262 times; 1 case in 6 additionally holds 1..2 untransformable metrics (undefined / out-of-range temporality, nil or unknown aggregation) in different scopes, which must be reported as an error by Export and be absent while every valid metric still arrives; exported by otlpmetricgrpc and otlpmetrichttp (gzip on/off) to loopback collectors; " +
+		Rule: "one ResourceMetrics with 0..4 scopes (empty, siblings differing in one component, without metrics) x 0..4 uniquely named metrics over {Gauge, Sum, Histogram, ExponentialHistogram} x {int64, float64} and Summary, both temporalities, monotonic flag, 0..3 points with exemplars (log-uniformly wider 1 time in 50..100: up to 60 metrics per scope, 100 points, 400 buckets / bounds, 100 quantiles, 40 exemplars), attribute keys of points / exemplars / resource / scope incl. duplicates and the empty key, Min/Max set or unset, boundary integers, NaN/Inf, unset/pre-epoch/2262 times; 1 case in 6 additionally holds 1..2 untransformable metrics (undefined / out-of-range temporality, nil or unknown aggregation) in different scopes, which must be reported as an error by Export and be absent while every valid metric still arrives; exported by otlpmetricgrpc and otlpmetrichttp (gzip on/off) to loopback collectors; " +
 			"non-trivial = >= 2 distinct scopes, or >= 1 boundary value (time <= epoch or unset or in the last second of int64 nanos, NaN/Inf, |int| > 2^53, count >= 2^63), or >= 1 untransformable metric",
 		Quick: 2000, Thorough: 30000,
 		Gen: genMetricCase, Run: runMetrics,
